@@ -339,8 +339,11 @@ def gen_module(rng, hostile):
         if rng.random() < 0.4:
             n += 1
             emit_multi("    ", f"lm{n}")
+        if rng.random() < 0.6:
+            # documentation-style comments on executable statements document nothing: their tokens must not show up in any hover
+            lines.append(f"    continue {rng.choice(['!<', '!!', '!>'])} {newtok()} stray")
         if kind == "function":
-            lines.append(f"    rr{pn} = 0")
+            lines.append(f"    rr{pn} = 0" + (f" !< {newtok()} stray" if rng.random() < 0.5 else ""))
         lines.append(f"  end {kind} pr{pn}")
         procs.append({"name": f"pr{pn}", "kind": kind, "args": args, "line": hl, "col": lines[hl].index(f"pr{pn}"), "decls": {d["name"]: d for d in argd}, "docs": pdocs})
     lines.append("end module c11m")
